@@ -213,7 +213,27 @@ func c14Walk(w *W) {
 		steps = append(steps, n, -n)
 	}
 	steps = append(steps, 15, -15, 30, -30)
+	// the days visited: every day of the table's span, plus whole years outside it (no records there: a day works iff it
+	// is Monday-Friday in the calendar in force) - Julian-era years in which the Julian and the proleptic Gregorian
+	// weekday differ, both sides of the 1582 switch, century years, years whose lunar New Year falls on 19/20 February,
+	// the ends of the range; and, for the pay rate only, every day of 1900..2100
+	var days []int
+	rateOnly := map[int]bool{}
 	for j := r1JDN(y0, 1, 1); j <= r1JDN(y1, 12, 31); j++ {
+		days = append(days, j)
+	}
+	for _, ey := range []int{2, 100, 500, 800, 1001, 1400, 1500, 1581, 1582, 1583, 1700, 1900, 1985, 1996, 2000, 2034, 2053, 2100, 4000, 9997} {
+		for j := r1JDN(ey, 1, 1); j <= r1JDN(ey, 12, 31); j++ {
+			days = append(days, j)
+		}
+	}
+	for j := r1JDN(1900, 1, 1); j <= r1JDN(2100, 12, 31); j++ {
+		if y, _, _ := r1FromJDN(j); (y < y0 || y > y1) && y != 1900 && y != 1985 && y != 1996 && y != 2000 && y != 2034 && y != 2053 && y != 2100 {
+			days = append(days, j)
+			rateOnly[j] = true
+		}
+	}
+	for _, j := range days {
 		if j%4 != part {
 			continue
 		}
@@ -232,6 +252,9 @@ func c14Walk(w *W) {
 			w.R.Nontrivial++
 		}
 		for _, n := range steps {
+			if rateOnly[j] {
+				break
+			}
 			// reference walk
 			tj := j
 			rest := n
